@@ -1,0 +1,247 @@
+//! Verification hooks (cargo feature `circ_verif`, off by default).
+//!
+//! Nothing in this module changes the behaviour of the library: every hook is a load of a
+//! function table pointer that is null unless a test harness installed one with [`install`].
+//! A deterministic-simulation harness uses the hooks to decide which thread performs the next
+//! shared-memory access ([`yp`]), to observe internal decisions ([`ev`]) and to inject legal
+//! but rare outcomes such as a spurious weak-CAS failure ([`buggify`]).
+
+use core::sync::atomic::{AtomicPtr, Ordering};
+
+use crate::ebr_impl::Guard;
+use crate::{AtomicRc, AtomicWeak, Rc, RcObject, Snapshot, Weak, WeakSnapshot};
+
+pub use crate::ebr_impl::verif_shim::*;
+
+/// Function table installed by the harness.
+pub struct Hooks {
+    /// Called immediately before a shared atomic access. `addr` is the address of the word
+    /// accessed, `a`/`b` are operation arguments (raw words) where meaningful.
+    pub yp: fn(site: u32, addr: usize, a: usize, b: usize),
+    /// Reports an internal event in the same step as the thing it describes.
+    pub ev: fn(kind: u32, a: usize, b: usize, c: usize),
+    /// Asks whether a legal-but-rare outcome should be forced at `site`.
+    pub buggify: fn(site: u32) -> bool,
+}
+
+static HOOKS: AtomicPtr<Hooks> = AtomicPtr::new(core::ptr::null_mut());
+
+/// Installs the hook table. Pass a leaked/static table.
+pub fn install(hooks: &'static Hooks) {
+    HOOKS.store(hooks as *const Hooks as *mut Hooks, Ordering::SeqCst);
+}
+
+/// Removes the hook table.
+pub fn uninstall() {
+    HOOKS.store(core::ptr::null_mut(), Ordering::SeqCst);
+}
+
+#[inline(always)]
+fn table() -> Option<&'static Hooks> {
+    unsafe { HOOKS.load(Ordering::Relaxed).as_ref() }
+}
+
+/// Yield point before a shared atomic access.
+#[inline(always)]
+pub fn yp(site: u32, addr: usize) {
+    if let Some(h) = table() {
+        (h.yp)(site, addr, 0, 0)
+    }
+}
+
+/// Yield point carrying the operation's arguments.
+#[inline(always)]
+pub fn yp2(site: u32, addr: usize, a: usize, b: usize) {
+    if let Some(h) = table() {
+        (h.yp)(site, addr, a, b)
+    }
+}
+
+/// Internal event.
+#[inline(always)]
+pub fn ev(kind: u32, a: usize, b: usize, c: usize) {
+    if let Some(h) = table() {
+        (h.ev)(kind, a, b, c)
+    }
+}
+
+/// Fault point.
+#[inline(always)]
+pub fn buggify(site: u32) -> bool {
+    match table() {
+        Some(h) => (h.buggify)(site),
+        None => false,
+    }
+}
+
+/// Yield-point site identifiers.
+#[allow(missing_docs)]
+pub mod site {
+    // RcInner::state accesses (utils.rs)
+    pub const INC_STRONG_FA1: u32 = 1;
+    pub const INC_STRONG_FA2: u32 = 2;
+    pub const TRY_DEALLOC_LOAD: u32 = 3;
+    pub const INC_WEAK_LOAD: u32 = 4;
+    pub const INC_WEAK_CAS: u32 = 5;
+    pub const INC_WEAK_FA1: u32 = 6;
+    pub const INC_WEAK_FA2: u32 = 7;
+    pub const DEC_WEAK_FS: u32 = 8;
+    pub const NOT_DESTRUCTED_LOAD: u32 = 9;
+    pub const NOT_DESTRUCTED_CAS: u32 = 10;
+    pub const DEC_STRONG_LOAD: u32 = 11;
+    pub const DEC_STRONG_CAS: u32 = 12;
+    pub const TRY_DESTRUCT_LOAD: u32 = 13;
+    pub const TRY_DESTRUCT_CAS: u32 = 14;
+    pub const DISPOSE_LOAD: u32 = 15;
+    pub const DISPOSE_WEAKED_LOAD: u32 = 16;
+    pub const DISPOSE_CHILD_LOAD: u32 = 17;
+    pub const DISPOSE_CHILD_CAS: u32 = 18;
+    // AtomicRc link accesses (strong.rs)
+    pub const ARC_LOAD: u32 = 30;
+    pub const ARC_STORE_SWAP: u32 = 31;
+    pub const ARC_SWAP: u32 = 32;
+    pub const ARC_CAS: u32 = 33;
+    pub const ARC_CAS_WEAK: u32 = 34;
+    pub const ARC_CAS_TAG: u32 = 35;
+    // AtomicWeak link accesses (weak.rs)
+    pub const AW_LOAD: u32 = 40;
+    pub const AW_STORE_SWAP: u32 = 41;
+    pub const AW_SWAP: u32 = 42;
+    pub const AW_CAS: u32 = 43;
+    pub const AW_CAS_WEAK: u32 = 44;
+    pub const AW_CAS_TAG: u32 = 45;
+    // AtomicEpoch (epoch.rs)
+    pub const EPOCH_LOAD: u32 = 50;
+    pub const EPOCH_STORE: u32 = 51;
+    pub const EPOCH_CAS: u32 = 52;
+    // RawAtomic (pointers.rs): queue and list
+    pub const RAW_LOAD: u32 = 60;
+    pub const RAW_STORE: u32 = 61;
+    pub const RAW_CAS: u32 = 62;
+    pub const RAW_CAS_WEAK: u32 = 63;
+    pub const RAW_FETCH_OR: u32 = 64;
+}
+
+/// Event kinds.
+#[allow(missing_docs)]
+pub mod kind {
+    /// a = object block, b = depth, c = current global epoch (full width)
+    pub const RECLAIM_NOW: u32 = 1;
+    /// a = object block, b = depth, c = 0 (not old enough) | 1 (depth cap)
+    pub const RECLAIM_DEFER: u32 = 2;
+    /// a = object block, b = epoch value read (full width), c = count subtracted
+    pub const STAMP_WRITE: u32 = 3;
+    /// a = object block
+    pub const DEALLOC: u32 = 4;
+    /// a = object block: the DESTRUCTED CAS of `try_destruct` succeeded
+    pub const DESTRUCT_ROOT: u32 = 5;
+    /// a = object block: `try_destruct` found strong > 0 and consumed the token instead
+    pub const DESTRUCT_SKIPPED: u32 = 6;
+    /// a = object block: `try_dealloc` found weak > 0
+    pub const DEALLOC_SKIPPED: u32 = 7;
+    /// a = object block: increment from zero took the token path (b = 0 strong, 1 weak)
+    pub const INC_FROM_ZERO: u32 = 8;
+    /// a = object block: `is_not_destructed` added a token
+    pub const UPGRADE_TOKEN: u32 = 9;
+    /// a = local, b = epoch word (pinned): validated pin of the outermost guard
+    pub const PINNED: u32 = 20;
+    /// a = local: validation in `pin` failed, retrying
+    pub const PIN_RETRY: u32 = 21;
+    /// a = local, b = guard_count on entry of `unpin`
+    pub const UNPIN_ENTER: u32 = 22;
+    /// a = new epoch word
+    pub const ADVANCED: u32 = 23;
+    /// a = 0 lagging participant | 1 stalled iteration
+    pub const ADVANCE_REFUSED: u32 = 24;
+    /// a = epoch word the bag was sealed with, b = number of deferred functions
+    pub const BAG_SEALED: u32 = 25;
+    /// a = local
+    pub const REGISTERED: u32 = 26;
+    /// a = local, b = 1 if the local bag was non-empty
+    pub const FINALIZE: u32 = 27;
+    /// a = local: `with_handle` fell back to a temporary registration
+    pub const HANDLE_FALLBACK: u32 = 28;
+    /// a = local, b = epoch word stored by `repin_without_collect`
+    pub const REPINNED: u32 = 29;
+    /// a deferred function object was created / called
+    pub const DEFERRED_NEW: u32 = 30;
+    pub const DEFERRED_CALL: u32 = 31;
+    /// a timestamp-only mismatch made an AtomicRc CAS loop retry
+    pub const CAS_STAMP_RETRY: u32 = 32;
+    /// a = element: list element finalized through the shim
+    pub const LIST_FINALIZE: u32 = 40;
+}
+
+/// Fault-point site identifiers.
+#[allow(missing_docs)]
+pub mod fault {
+    pub const ARC_CAS_WEAK: u32 = 1;
+    pub const AW_CAS_WEAK: u32 = 2;
+    pub const LIST_INSERT_CAS_WEAK: u32 = 3;
+}
+
+/// Sets the two tuning constants of the collector (bag capacity, number of manual events
+/// between forced flushes). Must be called while no other thread uses the library.
+pub fn set_knobs(max_objects: usize, manual_events_between_collect: usize) {
+    unsafe { crate::ebr_impl::verif_shim::set_knobs_raw(max_objects, manual_events_between_collect) }
+}
+
+/// Raw word (address | user tag | internal stamp) of a pointer.
+pub fn rc_word<T: RcObject>(p: &Rc<T>) -> usize {
+    p.verif_word()
+}
+/// Raw word of a snapshot.
+pub fn snapshot_word<T: RcObject>(p: &Snapshot<'_, T>) -> usize {
+    p.ptr.verif_word()
+}
+/// Raw word of a weak pointer.
+pub fn weak_word<T>(p: &Weak<T>) -> usize {
+    p.verif_word()
+}
+/// Raw word of a weak snapshot.
+pub fn weak_snapshot_word<T>(p: &WeakSnapshot<'_, T>) -> usize {
+    p.ptr.verif_word()
+}
+/// Address of the link word of an `AtomicRc`.
+pub fn atomic_rc_addr<T: RcObject>(p: &AtomicRc<T>) -> usize {
+    p.verif_addr()
+}
+/// Address of the link word of an `AtomicWeak`.
+pub fn atomic_weak_addr<T>(p: &AtomicWeak<T>) -> usize {
+    &p.link as *const _ as usize
+}
+/// Mask selecting the address bits of a raw word for payload type `T`
+/// (clears the user tag and the internal stamp).
+pub fn addr_mask<T>() -> usize {
+    crate::utils::Raw::<T>::verif_addr_mask()
+}
+/// Mask selecting the user tag bits of a raw word for payload type `T`.
+pub fn tag_mask<T>() -> usize {
+    crate::utils::Raw::<T>::verif_tag_mask()
+}
+/// Address of the count word of the object a raw word refers to (0 for null).
+pub fn state_addr<T>(word: usize) -> usize {
+    crate::utils::verif_state_addr::<T>(word)
+}
+/// (size, align) of the memory block of an object of payload type `T`.
+pub fn block_layout<T>() -> (usize, usize) {
+    crate::utils::verif_block_layout::<T>()
+}
+
+/// What a guard's participant looks like from the outside.
+#[derive(Clone, Copy, Debug, PartialEq, Eq)]
+pub struct LocalPeek {
+    /// address of the participant (0 for an unprotected guard)
+    pub local: usize,
+    /// raw announced epoch word (bit 0 = pinned)
+    pub epoch_word: usize,
+    /// number of live guards
+    pub guard_count: usize,
+    /// number of live handles
+    pub handle_count: usize,
+}
+
+/// Inspects the participant behind a guard.
+pub fn local_of(guard: &Guard) -> LocalPeek {
+    unsafe { peek_local(guard.local as usize) }
+}
